@@ -5,6 +5,7 @@ import Rbgp.Policy.Regex
 import Rbgp.Policy.Wf
 import Rbgp.Policy.DCodec
 import Rbgp.Policy.DSpec
+import Rbgp.Policy.Stats
 namespace Rbgp.C14
 open Rbgp Rbgp.Term Rbgp.Policy Rbgp.Policy.Codec
 
@@ -51,6 +52,17 @@ def handler (mode : String) (line : String) : String :=
                     | none => "fail step=0 idx=0 clause=unparsable-observation"
               | none => "ok"
       | _ => "(bad-line)"
+  | "stats" =>
+      -- evidence only: boundary / switch buckets the case exercises (Rbgp.Policy.Stats)
+      match parseManyFast line with
+      | some (ct :: _) =>
+          match caseOf? ct with
+          | some c => if Wf.wfCase c then Stats.render (Stats.caseBuckets Regex.env c) else "cases-ill-formed=1"
+          | none =>
+              match DCodec.dcaseOf? ct with
+              | some c => if Wf.wfDCase c then Stats.render (Stats.dcaseBuckets Regex.env c) else "cases-ill-formed=1"
+              | none => "cases-ill-formed=1"
+      | _ => "cases-ill-formed=1"
   | _ => "(bad-mode)"
 
 end Rbgp.C14
